@@ -262,7 +262,7 @@ def _(c):
                   opt_eq(b_["feedRate"], last_word(cmd, "F")), Not(is_none(b_["finalZ"])), veq(b_["finalZ"], z),
                   f.result is plm[2] or getattr(f, "native", False)]
         return And(*conds)
-    c.ensures("C16.arc-delegation", delegation, props=("C16", "C19", "C01", "C02", "C03", "C09"))
+    c.ensures("C16.arc-delegation", delegation, props=("C16", "C19", "C01", "C02", "C03", "C04", "C05", "C08", "C09", "C14"))
 
     def endpoint(f):
         """The values handed on denote the RS274 end point of the arc in the current positioning mode (an axis
@@ -634,7 +634,7 @@ def _(c):
             gc_ok = str_eq(a["gcode"], up)
         same_cmd = (a["cmd"] is f.a.cmd) or str_eq(a["cmd"], f.a.cmd)
         return And(target_ok, gc_ok, same_cmd, a["subcode"] is f.a.subcode, (f.result is tok) or getattr(f, "native", False))
-    c.ensures("C09.dispatch-exactly-one-handler", dispatch, props=("C09", "C01", "C02", "C19", "C06", "C20"))
+    c.ensures("C09.dispatch-exactly-one-handler", dispatch, props=("C09", "C01", "C02", "C03", "C04", "C05", "C14", "C19", "C06", "C20"))
 
 
 # ------------------------------------------------------------------------------------------ @-commands (C14)
